@@ -577,7 +577,26 @@ impl Exec {
     /// Keeps sealed memtables and L0 runs below the (correct) write-stall thresholds,
     /// which would spin forever without worker threads.
     pub fn pump(&mut self) -> R<()> {
-        if self.cfg.workers > 0 || !self.auto_pump {
+        if self.cfg.workers > 0 {
+            // with worker threads: the engine halts writers while a keyspace has 30+ L0 runs and asks for a compaction only
+            // after a flush - bulk ingestion adds runs without asking, so a writer can wait forever on idle workers
+            // (an engine stall outside the listed properties, see DESIGN 7); keep the workload clear of it
+            if self.is_open() && std::env::var("FJV_NO_HALT_AVOID").is_err() {
+                let hs: Vec<Keyspace> = self.handles.values().cloned().collect();
+                for h in hs {
+                    if h.tree.l0_run_count() >= 18 {
+                        // (major_compact is a hidden maintenance call: not next to a running worker compaction)
+                        if self.wait_quiescent().is_err() {
+                            continue;
+                        }
+                        h.major_compact().map_err(|e| err("major_compact", "pump", &e))?;
+                        self.stats.inc("pump.major_compact_with_workers");
+                    }
+                }
+            }
+            return Ok(());
+        }
+        if !self.auto_pump {
             return Ok(());
         }
         // every live keyspace, not only those a handle is currently held for (after a reopen none is held yet)
@@ -824,6 +843,11 @@ impl Exec {
             Op::MajorCompact { ks } => {
                 if self.model.ks.contains_key(ks) {
                     let h = self.handle(*ks)?;
+                    if self.cfg.workers > 0 {
+                        // hidden maintenance call: issued when no worker compaction is running (next to one, lsm-tree's
+                        // leveled strategy can panic with "next level should be disjoint")
+                        self.wait_quiescent()?;
+                    }
                     h.major_compact()
                         .map_err(|e| err("major_compact", "major_compact", &e))?;
                     self.stats.inc("major_compactions");
